@@ -45,10 +45,14 @@ const (
 	// FaultCancel: the run's context is cancelled right before the call;
 	// stores that honour contexts fail from then on.
 	FaultCancel
+	// FaultCancelAfter: the call itself completes successfully; the run's
+	// context is cancelled at the moment it returns (a client that goes
+	// away between two storage calls).
+	FaultCancelAfter
 )
 
 func (k FaultKind) String() string {
-	return [...]string{"none", "err-discard", "err-after-read", "sticky", "cancel"}[k]
+	return [...]string{"none", "err-discard", "err-after-read", "sticky", "cancel", "cancel-after"}[k]
 }
 
 // Call is one logged storage call.
@@ -58,9 +62,12 @@ type Call struct {
 	Op     string `json:"op"`
 	Digest string `json:"digest,omitempty"`
 	N      int    `json:"n,omitempty"` // FindMissing: number of digests asked
-	Fault  string `json:"fault,omitempty"`
-	Err    string `json:"err,omitempty"`
-	Phase  string `json:"phase,omitempty"`
+	// Missing is the number of digests a successful FindMissing reported
+	// as absent.
+	Missing int    `json:"missing,omitempty"`
+	Fault   string `json:"fault,omitempty"`
+	Err     string `json:"err,omitempty"`
+	Phase   string `json:"phase,omitempty"`
 }
 
 // Plan is shared by all stores of one run: it numbers the counted calls
@@ -133,6 +140,17 @@ func (p *Plan) next(store, op, dg string, n int, counted bool) (int, FaultKind) 
 	}
 	p.log = append(p.log, c)
 	return len(p.log) - 1, f
+}
+
+func (p *Plan) setMissing(idx, n int) {
+	p.mu.Lock()
+	if idx < len(p.log) {
+		p.log[idx].Missing = n
+		if p.triggered && p.hitCall.Seq == p.log[idx].Seq {
+			p.hitCall.Missing = n
+		}
+	}
+	p.mu.Unlock()
 }
 
 func (p *Plan) setErr(idx int, err error) {
@@ -318,6 +336,9 @@ func (s *Store) Put(ctx context.Context, d digest.Digest, b buffer.Buffer) (err 
 	s.blobs[Key(d)] = append([]byte(nil), data...)
 	s.mu.Unlock()
 	rec.Stored = true
+	if f == FaultCancelAfter && s.plan.cancel != nil {
+		s.plan.cancel()
+	}
 	return nil
 }
 
@@ -347,6 +368,10 @@ func (s *Store) FindMissing(ctx context.Context, digests digest.Set) (digest.Set
 		}
 	}
 	s.mu.Unlock()
+	s.plan.setMissing(idx, sb.Length())
+	if f == FaultCancelAfter && s.plan.cancel != nil {
+		s.plan.cancel()
+	}
 	return sb.Build(), nil
 }
 
